@@ -33,8 +33,44 @@ jobs = json.load(sys.stdin)
 out = []
 for text, o in jobs:
     r = fm.fmt(text, **o)
-    out.append(r if isinstance(r, str) else "RAISED:" + r.text)
+    out.append(r if isinstance(r, str) else "RAISED:" + (r.kind if r.kind == "RecursionError" else r.text))
 json.dump(out, sys.stdout)
+'''
+
+
+COLD = r'''
+import json, sys, threading
+n = int(sys.argv[1]); jobs = json.load(sys.stdin)
+import flowmark, marko
+from vf import fm
+roots = (flowmark.__path__[0], marko.__path__[0])
+mon = sys.monitoring; tool = mon.DEBUGGER_ID; mon.use_tool_id(tool, "vf-cold")
+count = [0]; t0 = [None]; go_b = threading.Event(); b_done = threading.Event(); fired = [False]; blocked = [False]
+def on_start(code, off):
+    # every Python function the first call starts is a point, the standard library's too (re.compile() inside a loop that
+    # fills a module-level table, ...): the program can be preempted there just as well
+    if threading.get_ident() == t0[0] and not fired[0]:
+        count[0] += 1
+        if count[0] == n:
+            fired[0] = True
+            go_b.set()
+            if not b_done.wait(8):
+                blocked[0] = True   # the other call waits for something this one holds (an import lock): carry on
+mon.register_callback(tool, mon.events.PY_START, on_start)
+res = [None, None]
+def run(i):
+    if i == 0:
+        t0[0] = threading.get_ident()
+    else:
+        go_b.wait(60)
+    t, o = jobs[i]
+    r = fm.fmt(t, **o)
+    res[i] = r if isinstance(r, str) else "RAISED:" + r.kind
+    (b_done if i == 1 else go_b).set()
+mon.set_events(tool, mon.events.PY_START)
+ths = [threading.Thread(target=run, args=(i,)) for i in range(2)]
+[t.start() for t in ths]; [t.join(120) for t in ths]
+json.dump({"res": res, "points": count[0], "fired": fired[0], "blocked": blocked[0]}, sys.stdout)
 '''
 
 
@@ -46,7 +82,7 @@ def run_elsewhere(jobs):
     return json.loads(p.stdout)
 
 
-def make_jobs(r: random.Random, n: int):
+def make_jobs(r: random.Random, n: int, deep: bool = False):
     jobs = []
     for _ in range(n):
         prof = r.choice(["core", "core", "typo", "tags"])
@@ -66,8 +102,21 @@ def make_jobs(r: random.Random, n: int):
         ["- loose\n\n- list\n\n  > quote in item\n\n1. tight\n2. list\n", rand_opts(r, force={"width": 30})],
         ["`code span` and [a link](http://u.v) and {% tag %} and <b>html</b> text to wrap around the width of thirty.\n", rand_opts(r, force={"width": 30})],
     ]
+    # two documents with more than 16 reference definitions each, the same destinations under different labels
+    for lab in ("alpha", "beta"):
+        special.append(["".join(f"See [site {i}][{lab}-{i}] and [{lab}-{i}] too.\n\n" for i in range(20)) +
+                        "".join(f"[{lab}-{i}]: http://site.example/{i}\n" for i in range(20)), rand_opts(r, force={"width": 88, "plaintext": False})])
     for sp in special:
         jobs.insert(r.randint(0, len(jobs)), sp)
+    if deep:
+        # documents nested deeper than the interpreter lets the reader recurse (they raise RecursionError, a listed finding of
+        # C12): whatever a call does about that must not change what LATER calls do (a raised limit left behind, ...). One far
+        # too deep, one moderately too deep, in both orders somewhere in the sequence.
+        far, near = "_a " * 6000 + "b" + " c_" * 6000 + "\n", "_a " * 1500 + "b" + " c_" * 1500 + "\n"
+        far_l, near_l = "".join("  " * i + "- x\n" for i in range(900)), "".join("  " * i + "- x\n" for i in range(480))
+        o = rand_opts(r, force={"width": 88, "plaintext": False})
+        k = r.randint(0, len(jobs))
+        jobs[k:k] = [[near, o], [far, dict(o)], [near, dict(o)], [near_l, dict(o)], [far_l, dict(o)], [near_l, dict(o)]]
     return jobs
 
 
@@ -156,7 +205,7 @@ class Sched:
                 for n, (t, o) in enumerate(jobs_per_thread[i]):
                     self.job_of[i] = n
                     r = fm.fmt(t, **o)
-                    res[i][n] = r if isinstance(r, str) else "RAISED:" + r.text
+                    res[i][n] = r if isinstance(r, str) else "RAISED:" + (r.kind if r.kind == "RecursionError" else r.text)
             finally:
                 self.alive[i] = False
                 self.switch(i, finished=True)
@@ -242,11 +291,15 @@ class C13(Prop):
     def cases(self, tier, seed, shard, nshards):
         r = shard_rng(seed, self.id, shard)
         for _ in range(2 if tier == "quick" else 12):
-            yield {"kind": "history", "seed": r.getrandbits(40), "n": r.randint(20, 40)}
+            yield {"kind": "history", "seed": r.getrandbits(40), "n": r.randint(20, 40), "deep": shard % 4 == 0}
         for _ in range(2 if tier == "quick" else 12):
             yield {"kind": "schedule", "seed": r.getrandbits(40), "threads": r.choice([2, 3, 4]), "jobs": r.randint(4, 6),
                    "schedules": 6 if tier == "quick" else 12, "p": r.choice([0.005, 0.02, 0.05])}
         yield {"kind": "stress", "seed": r.getrandbits(40), "threads": 8, "jobs": 6}
+        if shard % 4 == 1 or tier != "quick":
+            # the FIRST two calls of a process, one preempted by the other at its n-th function start (lazily built module state)
+            yield {"kind": "coldstart", "seed": r.getrandbits(40), "points": [1, 2, 3, 5, 8, 13, 21, 34, 55, 89, 144, 233, 377, 610, 987, 1597, 2584, 4181, 6765, 10946, 17711] if tier == "quick" else
+                   sorted(set([int(1.2 ** k) for k in range(1, 58)]))}
         for _ in range(2 if tier == "quick" else 12):
             yield {"kind": "reuse", "seed": r.getrandbits(40), "n": r.randint(12, 24)}
         for _ in range(1 if tier == "quick" else 6):
@@ -295,11 +348,11 @@ class C13(Prop):
 
     def _check_history(self, case, col):
         r = random.Random(case["seed"])
-        jobs = make_jobs(r, case["n"])
+        jobs = make_jobs(r, case["n"], deep=bool(case.get("deep")))
         here = []
         for t, o in jobs:
             x = fm.fmt(t, **o)
-            here.append(x if isinstance(x, str) else "RAISED:" + x.text)
+            here.append(x if isinstance(x, str) else "RAISED:" + (x.kind if x.kind == "RecursionError" else x.text))
         rev = run_elsewhere(list(reversed(jobs)))[::-1]
         sample = r.sample(range(len(jobs)), 3)
         alone = {i: run_elsewhere([jobs[i]])[0] for i in sample}
@@ -319,6 +372,36 @@ class C13(Prop):
                               {"index": i, "doc_head": jobs[i][0][:120], "in_sequence": here[i][:200], "alone": b[:200]})
         col.hist("history_len", len(jobs))
         col.sample({"kind": "history", "seed": case["seed"], "calls": len(jobs), "first_doc_head": jobs[0][0][:80]})
+
+    def _check_coldstart(self, case, col):
+        if self.mon is None:
+            return
+        r = random.Random(case["seed"])
+        docs = ["`code span` and [a link](http://u.v) and {% tag %} and <b>html</b> text to wrap around the width of thirty, more [two word link](http://x.y/z) here.\n",
+                "Start [two words link](http://x.y) {% tag a=1 b=\"x y\" %} <!-- a comment here --> <span class=\"a b\"> more `code with spaces` words to wrap {{ v | f(\"a b\") }} end.\n",
+                "- item with {% field kind=\"string\" label=\"Full Name\" %}{% /field %} and ![alt text](img.png \"ti tle\") inside a list item that wraps\n"]
+        a, b = r.sample(docs, 2)
+        jobs = [[a, rand_opts(r, widths=[20, 30], force={"plaintext": False})], [b, rand_opts(r, widths=[20, 30], force={"plaintext": False})]]
+        solo = [(lambda x: x if isinstance(x, str) else "RAISED:" + x.kind)(fm.fmt(t, **o)) for t, o in jobs]
+        for n in case["points"]:
+            p = subprocess.run([sys.executable, "-c", COLD, str(n)], input=json.dumps(jobs), capture_output=True, text=True, env=dict(os.environ), timeout=300)
+            col.case()
+            col.mon("schedule")
+            if p.returncode != 0:
+                col.count("coldstart_subprocess_failed")
+                col.note("coldstart subprocess failed: " + p.stderr[-200:])
+                continue
+            out = json.loads(p.stdout)
+            col.count("coldstart_processes")
+            if out["fired"]:
+                col.distinct("coldstart", case["seed"], n)
+            if out["blocked"]:
+                col.count("coldstart_second_call_blocked_on_the_first")
+            if out["res"] != solo:
+                i = 0 if out["res"][0] != solo[0] else 1
+                col.violation("schedule", "C13/coldstart/first-concurrent-calls-of-a-process-differ-from-solo", dict(case, point=n),
+                              {"preempted_at_function_start": n, "call": i, "solo": solo[i][:200], "concurrent": (out["res"][i] or "")[:200]})
+                return
 
     def _check_reuse(self, case, col):
         """One flowmark_markdown() object (public: flowmark.__all__) formats a sequence of documents, parse + render each: every
@@ -364,7 +447,7 @@ class C13(Prop):
         # threads share some documents and options (same cache keys), others differ
         for i in range(1, K):
             jobs[i][0] = jobs[0][0]
-        solo = [[(lambda x: x if isinstance(x, str) else "RAISED:" + x.text)(fm.fmt(t, **o)) for t, o in js] for js in jobs]
+        solo = [[(lambda x: x if isinstance(x, str) else "RAISED:" + (x.kind if x.kind == "RecursionError" else x.text))(fm.fmt(t, **o)) for t, o in js] for js in jobs]
         mon = self.mon
         sigs = set()
         for s in range(case["schedules"]):
@@ -417,7 +500,7 @@ class C13(Prop):
             oo = rand_opts(r, widths=[30, 88], force={"smartquotes": True, "ellipses": True, "cleanups": True, "plaintext": False})
             a, b = ([ta, oo], [tb, dict(oo)]) if r.random() < 0.5 else ([tb, oo], [ta, dict(oo)])
         jobs = [[a], [b]]
-        solo = [[(lambda x: x if isinstance(x, str) else "RAISED:" + x.text)(fm.fmt(t, **o)) for t, o in js] for js in jobs]
+        solo = [[(lambda x: x if isinstance(x, str) else "RAISED:" + (x.kind if x.kind == "RecursionError" else x.text))(fm.fmt(t, **o)) for t, o in js] for js in jobs]
         mon = self.mon
 
         def run(target, record=None):
@@ -461,7 +544,7 @@ class C13(Prop):
         K, J = case["threads"], case["jobs"]
         pool = make_jobs(r, K * J)
         jobs = [pool[i * J:(i + 1) * J] for i in range(K)]
-        solo = [[(lambda x: x if isinstance(x, str) else "RAISED:" + x.text)(fm.fmt(t, **o)) for t, o in js] for js in jobs]
+        solo = [[(lambda x: x if isinstance(x, str) else "RAISED:" + (x.kind if x.kind == "RecursionError" else x.text))(fm.fmt(t, **o)) for t, o in js] for js in jobs]
         res = [[None] * J for _ in range(K)]
         old = sys.getswitchinterval()
         sys.setswitchinterval(1e-6)
@@ -469,7 +552,7 @@ class C13(Prop):
         def w(i):
             for n, (t, o) in enumerate(jobs[i]):
                 x = fm.fmt(t, **o)
-                res[i][n] = x if isinstance(x, str) else "RAISED:" + x.text
+                res[i][n] = x if isinstance(x, str) else "RAISED:" + (x.kind if x.kind == "RecursionError" else x.text)
         try:
             ths = [threading.Thread(target=w, args=(i,)) for i in range(K)]
             for t in ths:
